@@ -907,6 +907,48 @@ func (w *wworld) checkOthersUntouched(before, after dbView, duidReq, duidResp, k
 	}
 }
 
+// checkEntryContract: the contract of create / subscribe judged against the store as it was before the exchange (C13):
+// Create or SubscribeOrCreate of a key that names no datatype of the client's collection is not refused as a duplicate,
+// and Subscribe of such a key is refused — whatever other collections hold under the same key
+func (w *wworld) checkEntryContract(before dbView, x *wdt, pack, resp *model.PushPullPack, fault int) {
+	if fault != 0 || w.dbfault {
+		return
+	}
+	colDoc, _ := w.e.mgr.Mongo.GetCollection(w.e.ctx, x.owner.col)
+	if colDoc == nil {
+		return
+	}
+	opt := model.PushPullPackOption(pack.Option)
+	if !opt.HasCreateBit() && !opt.HasSubscribeBit() {
+		return
+	}
+	existed, duidUsed := false, false
+	for _, d := range before.dts {
+		if uint64(colDoc.Num) == bnum(bget(d, "colNum")) && bget(d, "key") == x.key {
+			existed = true
+		}
+		if bget(d, "_id") == pack.DUID {
+			duidUsed = true
+		}
+	}
+	if existed || duidUsed {
+		return
+	}
+	isErr := resp.GetPushPullPackOption().HasErrorBit()
+	code := uint32(0)
+	if isErr && len(resp.Operations) > 0 {
+		if eo, ok := operations.ModelToOperation(resp.Operations[len(resp.Operations)-1]).(*operations.ErrorOperation); ok {
+			code = uint32(eo.GetCode())
+		}
+	}
+	switch {
+	case opt.HasCreateBit() && isErr && code == 302:
+		w.c.Violate("C13", "create-of-unused-key-refused", fmt.Sprintf("collection %s holds no datatype under key %q, yet creating it was refused as a duplicate", x.owner.col, x.key), w.desc)
+	case !opt.HasCreateBit() && opt.HasSubscribeBit() && !isErr:
+		w.c.Violate("C13", "subscribe-of-missing-key-accepted", fmt.Sprintf("collection %s holds no datatype under key %q, yet subscribing to it was accepted", x.owner.col, x.key), w.desc)
+	}
+}
+
 func (w *wworld) checkLog(v dbView) {
 	type od struct {
 		sseq, seq uint64
@@ -1254,6 +1296,7 @@ func (w *wworld) sync(x *wdt, fault int) {
 	w.checkLog(after)
 	w.checkSnapshots()
 	w.checkOthersUntouched(before, after, pack.DUID, resp.DUID, x.key)
+	w.checkEntryContract(before, x, pack, resp, fault)
 	pubG, pubs := w.pubsSince(pubsBefore)
 	// C18: one publish iff at least one operation was stored
 	stored := strings.Count(logPrefix(after), "\nO|") - strings.Count(logPrefix(before), "\nO|") // operations within the recorded logs
